@@ -158,6 +158,10 @@ class SyncCrazyflie:
         self._is_link_open = False
         if self._disconnect_event:
             self._disconnect_event.set()
+        if self._connect_event:
+            # The link was lost before the connection was set up, open_link() must not wait for ever
+            self._error_message = 'Disconnected from %s before the connection was set up' % link_uri
+            self._connect_event.set()
 
     def _all_params_updated(self, link_uri):
         self._params_updated_event.set()
